@@ -27,6 +27,11 @@ THEOREMS = [
     # vectors/normals/family do not see the origin, a vector is a difference of positions
     'C16.BoxObj.cacheValid_run', 'C16.BoxObj.reciprocalVects_run', 'C16.BoxObj.queries_after_set',
     'C16.BoxObj.queries_origin_independent', 'C16.BoxObj.vector_is_position_difference',
+    # the CALLER's memory: a call touches no existing array (the argument included), its value is a function of the
+    # argument's contents, it is stored at a fresh address; call -> caller overwrites results -> identical call gives
+    # the identical value (true by construction in a functional model: spelt out for histories, tied by _corr_memory)
+    'C16.Mem.call_frame', 'C16.Mem.call_result', 'C16.Mem.call_error', 'C16.Mem.size_step_le', 'C16.Mem.step_frame',
+    'C16.Mem.run_frame', 'C16.Mem.call_scribble_call', 'C16.Mem.two_results_distinct',
     # centering tables (generated from miller.py)
     'C16.centering_inverse', 'C16.centering_det',
     # reduce_indices / all_indices
@@ -275,13 +280,11 @@ def _family_cells(rng):
     a, b, c = _generic_lengths(rng)
     out = []
     out.append(('cubic', (a,), am.Box.cubic(a)))
-    out.append(('hexagonal', (a, c), am.Box.hexagonal(a, c)))
+    hargs = _ctor_args(rng, 'hexagonal')[0]
+    out.append(('hexagonal', hargs, am.Box.hexagonal(*hargs)))
     out.append(('tetragonal', (a, c), am.Box.tetragonal(a, c)))
-    while True:
-        al = rng.uniform(40.0, 118.0)
-        if abs(al - 90) > 1.5:
-            break
-    out.append(('rhombohedral', (a, al), am.Box.trigonal(a, al)))
+    rargs = _ctor_args(rng, 'rhombohedral')[0]
+    out.append(('rhombohedral', rargs, am.Box.trigonal(*rargs)))
     out.append(('orthorhombic', (a, b, c), am.Box.orthorhombic(a, b, c)))
     be = rng.uniform(92.0, 135.0)
     out.append(('monoclinic', (a, b, c, be), am.Box.monoclinic(a, b, c, be)))
@@ -367,10 +370,20 @@ def _ctor_args(rng, fam):
     if fam == 'cubic':
         return (a,), dict(a=a, b=a, c=a, alpha=90, beta=90, gamma=90)
     if fam == 'hexagonal':
+        r = rng.random()
+        if r < 0.2:
+            # c equal to a within the default tolerances: still a hexagonal cell (gamma = 120); the constructor only
+            # refuses c == a exactly
+            c = a * (1 + rng.choice([2e-6, -3e-6, 1e-9, 2.0 ** -40]))
+        elif r < 0.3:
+            c = a * math.sqrt(8.0 / 3.0)            # ideal c/a
         return (a, c), dict(a=a, b=a, c=c, alpha=90, beta=90, gamma=120)
     if fam == 'tetragonal':
         return (a, c), dict(a=a, b=a, c=c, alpha=90, beta=90, gamma=90)
     if fam == 'rhombohedral':
+        if rng.random() < 0.35:                     # limiting angles: primitive cells of fcc (60) and bcc (109.47), ...
+            al = rng.choice(RHOMB_SPECIAL)
+            return (a, al), dict(a=a, b=a, c=a, alpha=al, beta=al, gamma=al)
         while True:
             al = rng.uniform(40.0, 118.0)
             if abs(al - 90) > 1.5:
@@ -393,6 +406,8 @@ def _ctor_args(rng, fam):
         al, be, ga = _tri_angles(rng)
     return (a, b, c, al, be, ga), dict(a=a, b=b, c=c, alpha=al, beta=be, gamma=ga)
 
+
+RHOMB_SPECIAL = [60.0, 109.47122063449069, 70.52877936550931, 30.0, 45.0, 100.0, 119.0, 89.0, 91.0, 33.5573097619207]
 
 CTOR = {'cubic': 'cubic', 'hexagonal': 'hexagonal', 'tetragonal': 'tetragonal', 'rhombohedral': 'trigonal',
         'orthorhombic': 'orthorhombic', 'monoclinic': 'monoclinic', 'triclinic': 'triclinic'}
@@ -880,6 +895,9 @@ def correspond(ctx):
     # ---- H. ONE Box object through a history of setters; every function of the property asked after each -------
     _corr_objects(ctx, B, rng, quads_ok, atol_s)
 
+    # ---- I. the CALLER's memory: calls touch no existing array, results are new arrays -----------------------
+    _corr_memory(ctx, rng, atol_s)
+
     # ---- B/C. Cartesian vectors and plane normals per cell ------------------------------------
     exhaustive_cells = ctx.n(9, 14)
     for ci, (label, box) in enumerate(cells):
@@ -1145,6 +1163,168 @@ def _corr_objects(ctx, B, rng, quads_ok, atol_s):
         B.run()
 
 
+def _corr_memory(ctx, rng, atol_s):
+    """the CALLER's memory (model: `Mem Rows` in the driver state; theorems `Mem.call_frame`, `run_frame`,
+    `call_scribble_call`, `two_results_distinct`): one history of
+        alloc (an index array of int or float dtype, contiguous or a view of a larger table) /
+        call (a function of the property on an array the caller holds: an input OR an earlier result) /
+        nullary call (fromstring of one of a few strings, all_indices) /
+        scribble (the caller overwrites, in place, an array it holds: an input or a RESULT)
+    is run on real numpy arrays and on the model; after every step the WHOLE memory (every array the caller holds) is
+    compared.  The model's calls never touch an existing array and always return a new one."""
+    np = _np()
+    import atomman as am
+    from atomman.tools import miller
+
+    def flat(x):
+        return [float(v) for v in np.asarray(x, dtype=float).ravel().tolist()]
+
+    def rows_line(k, x):
+        return f'{k} ' + ' '.join(cm.fr(v) for v in flat(x))
+
+    for it in range(ctx.n(150, 1500)):
+        # the Box the session's vector conversions refer to (model: the driver's BoxObj)
+        cell = _gen_cell(rng, rng.choice(['hexagonal', 'hexagonal', None]) or rng.choice(FAMILIES + ['dyadic']),
+                         rng.choice(['std', 'perm', 'rot']))
+        box, e = _call(lambda: am.Box(vects=cell['vects'], origin=cell['origin']))
+        if e is not None:
+            continue
+        state = cm.frs(box.vects) + ' ' + cm.frs(box.origin) + ' ' + ' '.join(cm.fr(x) for x in _params(box))
+        lines = ['mreset', 'bnew ' + state]
+        expect = [('ok', None), ('ok', None)]          # (kind, payload) per line
+        real = []                                       # the arrays the caller holds, by address
+        keep = []                                       # the tables the views live in (kept alive)
+        hist = []
+        strings = [_gen_index_string(rng, rng.randrange(64))[0] for _ in range(2)]
+        fns = [('plane3to4', 3, miller.plane3to4, 'p34'), ('vector3to4', 3, miller.vector3to4, 'v34'),
+               ('plane4to3', 4, miller.plane4to3, f'p43 {atol_s}'), ('vector4to3', 4, miller.vector4to3, f'v43 {atol_s}'),
+               ('reduce_indices', 0, miller.reduce_indices, 'reduce'),
+               ('Box.vector_crystal_to_cartesian', 0, box.vector_crystal_to_cartesian, f'bvc2c {atol_s}'),
+               ('miller.vector_crystal_to_cartesian', 0, lambda x: miller.vector_crystal_to_cartesian(x, box), f'bvc2c {atol_s}')]
+        st = rng.choice(SETTINGS)
+        fns += [('vector_primitive_to_conventional:' + st, 3, lambda x: miller.vector_primitive_to_conventional(x, st), 'p2c ' + st),
+                ('vector_conventional_to_primitive:' + st, 3, lambda x: miller.vector_conventional_to_primitive(x, st), 'c2p ' + st)]
+
+        def snapshot():
+            return [(np.asarray(a).shape, flat(a)) for a in real]
+
+        def width(a):
+            return np.asarray(a).shape[-1] if np.asarray(a).ndim else 0
+
+        nsteps = rng.randint(5, 12)
+        for stepno in range(nsteps):
+            r = rng.random()
+            if not real or r < 0.22:
+                k = rng.choice([3, 3, 4])
+                dtype = rng.choice(['int64', 'int64', 'float64', 'int32'])
+                kind = rng.choice(['int3'] if k == 3 else ['int4', 'int4', 'any4']) if dtype != 'float64' else \
+                    rng.choice(['int3', 'frac3'] if k == 3 else ['int4', 'thirds4'])
+                shape = rng.choice([(), (2,), (3,), (2, 2)])
+                cnt = 1
+                for d in shape:
+                    cnt *= d
+                rows = _pure_rows(rng, kind, cnt)
+                variant = rng.choice([v for v in VARIANTS if v not in ('list', 'readonly')])
+                base, view = _make_input(np, rows, shape, variant, dtype)
+                keep.append(base)
+                real.append(view)
+                hist.append(f'a{len(real) - 1} = {dtype} array {np.asarray(view).tolist()} ({variant})')
+                lines.append('malloc ' + rows_line(k, view))
+                expect.append(('addr', len(real) - 1))
+            elif r < 0.62:
+                src = rng.randrange(len(real))
+                a = real[src]
+                w = width(a)
+                cands = [f for f in fns if (f[1] == w or (f[1] == 0 and w in (3, 4)))
+                         and not (f[0] == 'reduce_indices' and np.asarray(a).dtype.kind not in 'iu')]
+                if not cands or np.asarray(a).size == 0:
+                    continue
+                name, _w, f, tok = rng.choice(cands)
+                res, e = _call(f, a)
+                hist.append(f'a{len(real)} = {name}(a{src})' + (f' -> {e}' if e else ''))
+                lines.append(f'mcall {src} {tok}')
+                if e is None:
+                    real.append(res)
+                    expect.append(('call', (len(real) - 1, name)))
+                else:
+                    expect.append(('err', (e, name)))
+            elif r < 0.74:
+                if rng.random() < 0.7:
+                    s = rng.choice(strings)
+                    res, e = _call(miller.fromstring, s)
+                    name = f'fromstring({s!r})'
+                    lines.append('mconst ' + _codes(s))
+                else:
+                    m, rf = rng.choice([0, 1, 1, 2]), rng.random() < 0.5
+                    res, e = _call(miller.all_indices, m, reduce=rf)
+                    name = f'all_indices({m}, reduce={rf})'
+                    lines.append(f'mconst allidx {m} {1 if rf else 0}')
+                hist.append(f'a{len(real)} = {name}' + (f' -> {e}' if e else ''))
+                if e is None:
+                    real.append(res)
+                    expect.append(('call', (len(real) - 1, name)))
+                else:
+                    expect.append(('err', (e, name)))
+            else:
+                # the caller writes into an array it holds (results preferred: b *= a, n /= norm, t[2] = 0)
+                res_addrs = [i for i, a in enumerate(real) if isinstance(a, np.ndarray) and a.flags.writeable and a.size]
+                if not res_addrs:
+                    continue
+                dst = rng.choice(res_addrs[-3:] + res_addrs)
+                a = real[dst]
+                w = width(a)
+                cnt = a.size // w
+                kind = {3: 'int3', 4: rng.choice(['int4', 'int4', 'any4'])}.get(w)
+                if kind is None:
+                    continue
+                new = np.array(_pure_rows(rng, kind, cnt)).reshape(a.shape)
+                a[...] = new
+                hist.append(f'a{dst}[...] = {new.tolist()}')
+                lines.append(f'mscrib {dst} ' + rows_line(w, a))
+                expect.append(('ok', None))
+            lines.append('mdump')
+            expect.append(('dump', (snapshot(), list(hist))))
+        outs = ctx.driver.ask_many(lines)
+        ctx.stats.case('memory:session', tuple(lines), nontrivial=True,
+                       sample={'op': 'memory-session', 'history': list(hist)} if it < 3 else None)
+        for li, (line, (kind, pay), out) in enumerate(zip(lines, expect, outs)):
+            bad = None
+            if kind == 'ok':
+                bad = None if out == 'ok' else f'model answered {out}'
+            elif kind == 'addr':
+                bad = None if out == str(pay) else f'model address {out}, harness {pay}'
+                if bad:
+                    raise cm.InfraError('harness: memory addresses out of step: ' + bad)
+            elif kind == 'err':
+                if out != pay[0]:
+                    ctx.disagree('memory:call', f'{pay[1]} raised {pay[0]}, model {out[:80]} (history: ' + '; '.join(hist) + ')',
+                                 {'op': 'memory', 'lines': lines, 'history': hist})
+                    break
+            elif kind == 'call':
+                if out.startswith('err:'):
+                    ctx.disagree('memory:call', f'{pay[1]} returned a value, model {out} (history: ' + '; '.join(hist) + ')',
+                                 {'op': 'memory', 'lines': lines, 'history': hist})
+                    break
+            elif kind == 'dump':
+                snap, h = pay
+                cells = out.split(';') if out else []
+                msg = None
+                if len(cells) != len(snap):
+                    msg = f'the caller holds {len(snap)} arrays, the model {len(cells)}'
+                else:
+                    for addr, ((shape, vals), cell) in enumerate(zip(snap, cells)):
+                        model = cm.unfrs(cell.split(':', 1)[1]) if cell.split(':', 1)[1].strip() else []
+                        if len(model) != len(vals) or not cm.allclose(vals, model, 1e-13, 1e-13):
+                            msg = (f'array a{addr} holds {vals}, in the model (calls touch no existing array, every result '
+                                   f'is a new array) it holds {[float(x) for x in model]}')
+                            break
+                if msg:
+                    ctx.disagree('memory:state',
+                                 'caller memory after [' + '; '.join(h) + ']: ' + msg,
+                                 {'op': 'memory', 'lines': lines[:li + 1], 'history': h})
+                    break
+
+
 def _malformed(rng, n):
     out = ['[1 0 0', '(1 0 0]', '[1 0 0)', '{1 0 0', '<1 1 -2 0', '[1 2]', '[1 2 3 4 5]', '[]', '[ ]',
            '1/0 [1 0 0]', '1/2/3 [1 0 0]', '2 [1 0 0]', '1/2 [1 0]', '1/-0 (1 1 1)', '1 2', '1 2 3 4 5', '',
@@ -1247,6 +1427,61 @@ def _o_roundtrip34(ctx, np, miller, t):
         if e != 'err:value':
             ctx.violate(nm + ':guard', f'{nm} accepts {bad} although the first three indices do not sum to zero',
                         {'op': 'roundtrip34', 'idx': t})
+
+
+def _o_roundtrip_frac(ctx, np, miller, t, dtype='list'):
+    """[uvw] with FRACTIONAL entries (what fromstring('1/2 [1 1 0]') hands over) and integer indices held in a float
+    array / huge integer indices: 3 -> 4 -> 3 is lossless, values exact (Fractions of the doubles passed)."""
+    x = [float(v) for v in t]
+    arg = x if dtype == 'list' else np.array(x, dtype=float)
+    tf = [_F(v) for v in x]
+    want4 = [(2 * tf[0] - tf[1]) / 3, (2 * tf[1] - tf[0]) / 3, -(tf[0] + tf[1]) / 3, tf[2]]
+    scale = max(1.0, max(abs(v) for v in x))
+    replay = {'op': 'roundtrip_frac', 'idx': x, 'dtype': dtype}
+    v4, e = _call(miller.vector3to4, arg)
+    r, e2 = (None, 'x') if e else _call(miller.vector4to3, v4)
+    if e or e2 or not cm.allclose(np.asarray(v4).tolist(), want4, 1e-14, 1e-15 * scale) \
+            or not cm.allclose(np.asarray(r).tolist(), tf, 1e-14, 1e-14 * scale):
+        ctx.violate('vector34:roundtrip', f'vector3to4/vector4to3 on {x} ({dtype}): 3->4 gives '
+                    f'{e or np.asarray(v4).tolist()} (exact: {[float(w) for w in want4]}), back '
+                    f'{e2 if e2 else np.asarray(r).tolist()}', replay)
+        return
+    p4, e = _call(miller.plane3to4, arg)
+    back, e2 = (None, 'x') if e else _call(miller.plane4to3, p4)
+    ok = not e and not e2 and np.asarray(p4).shape == (4,) and np.asarray(back).shape == (3,)
+    if ok:
+        p4f = [_F(v) for v in np.asarray(p4).tolist()]
+        # i = -(h+k) is one float addition: exact on integers, one rounding on fractions
+        ok = [p4f[0], p4f[1], p4f[3]] == tf and abs(p4f[2] + tf[0] + tf[1]) <= Fraction(1, 2 ** 52) * (abs(tf[0]) + abs(tf[1])) \
+            and [_F(v) for v in np.asarray(back).tolist()] == tf
+    if not ok:
+        ctx.violate('plane34:roundtrip', f'plane3to4/plane4to3 on {x} ({dtype}): 3->4 gives {e or np.asarray(p4).tolist()}, '
+                    f'back {e2 if e2 else np.asarray(back).tolist()}', replay)
+
+
+def _o_normal_guard_array(ctx, np, box, label, rows, badrow, kind, shape, spec=None):
+    """plane normals of an ARRAY of planes in which ONE row is not a plane at all (the zero index vector) or not an
+    integer plane (x + 1/2; fractional parts that cancel within the row or against another row): the array is rejected
+    (ValueError) like the offending row alone, whatever the other rows are, for every leading shape."""
+    rows = [[float(v) for v in r] for r in rows]
+    replay = {'op': 'normal_guard_array', 'rows': rows, 'badrow': badrow, 'kind': kind, 'shape': list(shape),
+              'vects': box.vects.tolist(), 'cell': label}
+    if spec is not None:
+        replay['spec'] = spec
+    arr = np.array(rows).reshape(tuple(shape) + (3,))
+    if kind == 'zero' or all(float(v).is_integer() for r in rows for v in r):
+        arr = arr.astype(int) if sum(map(abs, rows[0])) % 2 == 0 else arr
+    alone, e0 = _call(box.plane_crystal_to_cartesian, rows[badrow])
+    if e0 != 'err:value':
+        ctx.violate('plane_normal:guard-array', f'plane_crystal_to_cartesian({rows[badrow]}) on a {label} cell is accepted '
+                    f'({e0 or np.asarray(alone).tolist()}): {"the zero index vector" if kind == "zero" else "not integer indices"}',
+                    replay)
+        return
+    r, e = _call(box.plane_crystal_to_cartesian, arr)
+    if e != 'err:value':
+        ctx.violate('plane_normal:guard-array', f'plane_crystal_to_cartesian accepts the array {arr.tolist()} on a {label} cell '
+                    f'although row {badrow} ({rows[badrow]}) is rejected when given alone (result '
+                    f'{e or np.asarray(r).tolist()})', replay)
 
 
 def _o_same_direction(ctx, np, miller, hexbox, t, spec=None):
@@ -1431,7 +1666,7 @@ def _guard_offsets(rng, n):
     return offs, kind
 
 
-SHAPES = [(2, 2), (2, 3), (3, 2), (4,), (1,), (1, 5), (2, 2, 2), (3, 3), (2, 1, 2), (3, 1), (1, 1, 1)]
+SHAPES = [(2, 2), (2, 3), (3, 2), (4,), (1,), (1, 5), (2, 2, 2), (3, 3), (2, 1, 2), (3, 1), (1, 1, 1), (3,), (2,)]
 
 
 def _shape_fn(am, miller, name, extra):
@@ -1545,11 +1780,12 @@ def _o_reduce_shape(ctx, np, miller, rows, shape):
 
 
 def _o_all_indices(ctx, np, miller, m):
-    allr = miller.all_indices(m, reduce=True)
-    alln = miller.all_indices(m)
+    allr = np.asarray(miller.all_indices(m, reduce=True))
+    alln = np.asarray(miller.all_indices(m))
     want = sorted({tuple(t) for t in _triples(m) if t != (0, 0, 0)})
     wantr = sorted(t for t in want if math.gcd(math.gcd(abs(t[0]), abs(t[1])), abs(t[2])) == 1)
-    if sorted(map(tuple, alln.tolist())) != want or len(alln) != len(want) \
+    if alln.shape != (len(want), 3) or allr.shape != (len(wantr), 3) or alln.dtype.kind not in 'iu' \
+            or allr.dtype.kind not in 'iu' or sorted(map(tuple, alln.tolist())) != want \
             or list(map(tuple, allr.tolist())) != wantr:
         ctx.violate('all_indices', f'all_indices({m}) does not list exactly the non-zero triples / the coprime triples',
                     {'op': 'all_indices', 'maxindex': m})
@@ -1866,6 +2102,247 @@ def _o_params(ctx, np, box, label, spec=None):
                     f'({label} cell, object history {_hist(spec or {})})', replay)
 
 
+# ---- arguments are not modified, results are fresh --------------------------------------------------------
+VARIANTS = ['contiguous', 'rows-of-table', 'cols-of-table', 'every-other', 'reversed', 'fortran', 'readonly', 'list']
+_DT = {'int64': 'int64', 'int32': 'int32', 'float64': 'float64'}
+
+
+def _make_input(np, rows, shape, variant, dtype):
+    """the index sets `rows` (leading shape `shape`) held in caller memory of one kind -> (base, view):
+    `view` is what is passed to the function, `base` the whole allocation it lives in (a larger table for the sliced
+    kinds); for 'list' both are the same nested list."""
+    k = len(rows[0])
+    dt = np.dtype(_DT[dtype])
+    a = np.array(rows, dtype=dt).reshape(tuple(shape) + (k,))
+    pad = 7
+    if variant == 'list':
+        v = a.tolist()
+        return v, v
+    if variant == 'contiguous':
+        base = a.copy()
+        view = base
+    elif variant == 'rows-of-table':
+        if a.ndim == 1:
+            base = np.full((3, k), pad, dtype=dt)
+            base[1] = a
+            view = base[1]
+        else:
+            base = np.full((a.shape[0] + 2,) + a.shape[1:], pad, dtype=dt)
+            base[1:-1] = a
+            view = base[1:-1]
+    elif variant == 'cols-of-table':
+        base = np.full(a.shape[:-1] + (k + 3,), pad, dtype=dt)
+        base[..., 2:2 + k] = a
+        view = base[..., 2:2 + k]
+    elif variant == 'every-other':
+        if a.ndim == 1:
+            base = np.full((2 * k,), pad, dtype=dt)
+            base[::2] = a
+            view = base[::2]
+        else:
+            base = np.full((2 * a.shape[0],) + a.shape[1:], pad, dtype=dt)
+            base[::2] = a
+            view = base[::2]
+    elif variant == 'reversed':
+        base = a[..., ::-1].copy()
+        view = base[..., ::-1]
+    elif variant == 'fortran':
+        base = np.asfortranarray(a)
+        view = base
+    elif variant == 'readonly':
+        base = a.copy()
+        view = base.view()
+        view.flags.writeable = False
+    else:
+        raise cm.InfraError(f'harness: unknown input kind {variant}')
+    if view.shape != a.shape or not np.array_equal(view, a):
+        raise cm.InfraError(f'harness: input kind {variant} does not hold the rows')
+    return base, view
+
+
+def _pure_rows(rng, kind, cnt):
+    """index sets that make an in-place operation SHOW: common factors (reduce_indices changes them), thirds, halves."""
+    rows = []
+    while len(rows) < cnt:
+        g = rng.choice([1, 2, 2, 3, 5, 6])
+        if kind == 'int3':
+            x = [g * rng.randint(-6, 6) for _ in range(3)]
+        elif kind == 'int4':
+            h, k_ = g * rng.randint(-5, 5), g * rng.randint(-5, 5)
+            x = [h, k_, -(h + k_), g * rng.randint(-6, 6)]
+        elif kind == 'any4':
+            x = [g * rng.randint(-6, 6) for _ in range(4)]
+        elif kind == 'frac3':
+            x = [rng.randint(-12, 12) / rng.choice([2, 3, 4, 6]) for _ in range(3)]
+        elif kind == 'thirds4':
+            x = _ref_vector3to4([rng.randint(-6, 6) for _ in range(3)]).tolist()
+        else:
+            raise cm.InfraError(f'harness: unknown row kind {kind}')
+        if any(x[i] for i in ((0, 1, 2) if len(x) == 3 else (0, 1, 3))):
+            rows.append(x)
+    return rows
+
+
+def _pure_fn(am, miller, case):
+    """-> (function of one array argument | None, nullary call | None, box | None)"""
+    name, ex = case['fn'], case.get('extra') or {}
+    if name == 'fromstring':
+        return None, (lambda: miller.fromstring(ex['string'])), None
+    if name == 'all_indices':
+        return None, (lambda: miller.all_indices(ex['maxindex'], reduce=ex['reduce'])), None
+    if name in ('plane3to4', 'vector3to4', 'plane4to3', 'vector4to3', 'reduce_indices'):
+        return getattr(miller, name), None, None
+    if name in ('vector_primitive_to_conventional', 'vector_conventional_to_primitive'):
+        return (lambda x: getattr(miller, name)(x, ex['setting'])), None, None
+    box = _build(ex['spec'])
+    if name in ('Box.vects', 'Box.origin', 'Box.reciprocal_vects'):
+        return None, (lambda: getattr(box, name.split('.')[1])), box
+    if name in ('vector_crystal_to_cartesian', 'plane_crystal_to_cartesian'):
+        return getattr(box, name), None, box
+    if name in ('miller.vector_crystal_to_cartesian', 'miller.plane_crystal_to_cartesian'):
+        return (lambda x: getattr(miller, name.split('.')[1])(x, box)), None, box
+    raise cm.InfraError(f'harness: unknown function {name}')
+
+
+def _same_values(np, a, b):
+    a, b = np.asarray(a), np.asarray(b)
+    if a.shape != b.shape:
+        return False
+    if a.dtype.kind in 'iub' and b.dtype.kind in 'iub':
+        return bool(np.array_equal(a, b))
+    return bool(np.allclose(a.astype(float), b.astype(float), rtol=1e-13, atol=1e-13, equal_nan=True))
+
+
+def _o_pure(ctx, np, am, miller, case):
+    """for one function of the property and one way the caller holds the numbers:
+    (a) the call does not modify its arguments (bitwise snapshot of the whole allocation the argument lives in, of its
+        shape/strides/dtype, of a list argument, and of the Box: vects, origin) and gives what it gives for the same
+        numbers in a plain list;
+    (b) the result is fresh: the caller overwrites the returned array; that changes no argument, and the identical call
+        gives the first result again;
+    (c) the results of two identical calls (and a result and the argument) share no memory."""
+    import copy
+    name = case['fn']
+    f1, f0, box = _pure_fn(am, miller, case)
+    replay = {'op': 'pure', 'case': case}
+    base = view = None
+    if f1 is not None:
+        base, view = _make_input(np, case['rows'], case['shape'], case['variant'], case['dtype'])
+        plain = np.array(case['rows'], dtype=_DT[case['dtype']]).reshape(tuple(case['shape']) + (len(case['rows'][0]),)).tolist()
+        r0, e0 = _call(f1, copy.deepcopy(plain))
+        call = lambda: f1(view)     # noqa
+        held = (f'{case["dtype"]} indices {plain} held as {case["variant"]}' +
+                ('' if case['variant'] in ('contiguous', 'list') else ' (a view of a larger table)'
+                 if case['variant'] in ('rows-of-table', 'cols-of-table', 'every-other') else ''))
+        what = f'{name}({held})' + (f' [{ {k: v for k, v in (case.get("extra") or {}).items() if k != "spec"} }]' if case.get('extra') else '')
+    else:
+        call = f0
+        ex = case.get('extra') or {}
+        what = f'{name}({", ".join(repr(v) for k, v in ex.items() if k != "spec")})'
+
+    def snap():
+        parts = []
+        if isinstance(base, list):
+            parts.append(repr(base))
+        elif base is not None:
+            parts += [base.tobytes(), view.shape, view.strides, str(view.dtype), base.shape]
+        if box is not None:
+            parts += [box.vects.tobytes(), box.origin.tobytes()]
+        return parts
+
+    def show_input():
+        return base if isinstance(base, list) else (None if base is None else np.asarray(view).tolist())
+
+    s0 = snap()
+    r1, e1 = _call(call)
+    if snap() != s0:
+        ctx.violate(name + ':input-modified', f'{what} changed its argument: after the call the caller\'s array holds '
+                    f'{show_input()}' + ('' if box is None else f' / the Box holds vects {box.vects.tolist()}'), replay)
+        return
+    if f1 is not None:
+        if e1 != e0:
+            ctx.violate(name + ':input-kind', f'{what} gives {e1 or "a value"}, the same numbers as a plain list give '
+                        f'{e0 or "a value"}', replay)
+            return
+        if e1 is None and not _same_values(np, r1, r0):
+            ctx.violate(name + ':input-kind', f'{what} = {np.asarray(r1).tolist()}, the same numbers as a plain list give '
+                        f'{np.asarray(r0).tolist()}', replay)
+            return
+    if e1 is not None or not isinstance(r1, np.ndarray):
+        return
+    c1 = r1.copy()
+    if r1.flags.writeable:
+        r1[...] = -77
+        if snap() != s0:
+            ctx.violate(name + ':result-aliases-input', f'{what}: writing into the returned array changed the argument '
+                        f'(now {show_input()})' + ('' if box is None else f' / the Box (vects {box.vects.tolist()})'), replay)
+            return
+    r2, e2 = _call(call)
+    if e2 is not None or not isinstance(r2, np.ndarray) or r2.shape != c1.shape or not np.array_equal(r2, c1, equal_nan=True):
+        ctx.violate(name + ':result-not-fresh', f'{what}: the first call returned {c1.tolist()}; the caller overwrote the '
+                    f'returned array; the identical call then returned {e2 or np.asarray(r2).tolist()}', replay)
+        return
+    if r2 is r1 or np.shares_memory(r2, r1):
+        ctx.violate(name + ':results-share-memory', f'{what}: two identical calls return arrays that share memory', replay)
+        return
+    if isinstance(base, np.ndarray) and np.shares_memory(r2, base):
+        ctx.violate(name + ':result-aliases-input', f'{what}: the returned array shares memory with the argument', replay)
+
+
+def _pure_cases(rng, ctx, cells, broken):
+    """the functions of the property x the ways a caller can hold the numbers (plain data, replayable)."""
+    out = []
+    shapes = [(), (3,), (2, 2), (1,), (4,)]
+
+    def arr_cases(fn, kinds, dtypes, extra=None, reps=1):
+        for variant in VARIANTS:
+            for dtype in dtypes:
+                for _ in range(reps):
+                    kind = rng.choice(kinds if dtype == 'float64' else [k_ for k_ in kinds if k_.startswith(('int', 'any'))])
+                    shape = rng.choice(shapes)
+                    cnt = 1
+                    for d in shape:
+                        cnt *= d
+                    rows = _pure_rows(rng, kind, cnt)
+                    if dtype != 'float64':
+                        rows = [[int(v) for v in r] for r in rows]
+                    out.append({'fn': fn, 'rows': rows, 'shape': list(shape), 'variant': variant, 'dtype': dtype,
+                                'extra': extra})
+    ints = ['int64', 'int32']
+    both = ['int64', 'float64', 'int32']
+    arr_cases('plane3to4', ['int3'], both)
+    arr_cases('vector3to4', ['int3', 'frac3'], both)
+    arr_cases('plane4to3', ['int4'], both)
+    arr_cases('vector4to3', ['int4', 'thirds4'], both)
+    arr_cases('reduce_indices', ['int3'], ints, reps=2)
+    arr_cases('reduce_indices', ['int4', 'any4'], ints)
+    for setting in SETTINGS:
+        arr_cases('vector_primitive_to_conventional', ['int3', 'frac3'], ['int64', 'float64'], {'setting': setting})
+        arr_cases('vector_conventional_to_primitive', ['int3', 'frac3'], ['int64', 'float64'], {'setting': setting})
+    hexs = [c for c in cells if c[0].startswith('hexagonal') and c[3]['hand'] == 'right']
+    others = [c for c in cells if not c[0].startswith('hexagonal')]
+    for label, _box, spec, _cell in rng.sample(others, min(len(others), ctx.n(3, 8))) + hexs[:2]:
+        ex = {'spec': {'new': {'vects': _box.vects.tolist(), 'origin': _box.origin.tolist()}, 'then': []}, 'cell': label}
+        for fn in ('vector_crystal_to_cartesian', 'miller.vector_crystal_to_cartesian'):
+            arr_cases(fn, ['int3', 'frac3'], ['int64', 'float64'], ex)
+        for fn in ('plane_crystal_to_cartesian', 'miller.plane_crystal_to_cartesian'):
+            arr_cases(fn, ['int3'], ['int64', 'float64'], ex)
+        if label.startswith('hexagonal'):
+            arr_cases('vector_crystal_to_cartesian', ['int4', 'thirds4'], ['int64', 'float64'], ex)
+            arr_cases('plane_crystal_to_cartesian', ['int4'], ['int64', 'float64'], ex)
+        for fn in ('Box.vects', 'Box.origin', 'Box.reciprocal_vects'):
+            out.append({'fn': fn, 'extra': ex})
+    for it in range(ctx.n(40, 300)):
+        s, _classes = _gen_index_string(rng, it)
+        out.append({'fn': 'fromstring', 'extra': {'string': s}})
+    for s in ('[1 0 0]', '1/2 [1 1 0]', '(1 1 1)', '1/3 <1 1 -2 0>', '{1 0 -1 2}', '1 0 0', '2 -1 -1 0'):
+        out.append({'fn': 'fromstring', 'extra': {'string': s}})
+    for m in range(0, 4):
+        for rflag in (False, True):
+            out.append({'fn': 'all_indices', 'extra': {'maxindex': m, 'reduce': rflag}})
+    return out
+
+
 def _guard(ctx, key, replay, fn, *args):
     """an oracle clause must not die on a raising implementation: report the exception as the failing input."""
     try:
@@ -1906,6 +2383,21 @@ def search(ctx, broken):
     for t in tri:
         ctx.stats.case('oracle:roundtrip34', t)
         _guard(ctx, 'roundtrip34', {'op': 'roundtrip34', 'idx': list(t)}, _o_roundtrip34, ctx, np, miller, t)
+    #    fractional [uvw] (1/2 [1 1 0]), integer indices held in float arrays, huge indices
+    for it in range(ctx.n(400, 4000) * mult):
+        r = it % 4
+        if r == 0:
+            t = [rng.randint(-12, 12) / rng.choice([2, 3, 4, 6, 8]) for _ in range(3)]
+        elif r == 1:
+            t = [float(rng.randint(-N, N)) for _ in range(3)]
+        elif r == 2:
+            t = [float(rng.randint(-10 ** rng.randint(3, 12), 10 ** rng.randint(3, 12))) for _ in range(3)]
+        else:
+            t = [rng.randint(-40, 40) / rng.choice([1, 2, 5, 10]) for _ in range(3)]
+        dt = 'list' if it % 3 else 'float64'
+        ctx.stats.case('oracle:roundtrip34-frac', (tuple(t), dt))
+        _guard(ctx, 'roundtrip34', {'op': 'roundtrip_frac', 'idx': t, 'dtype': dt}, _o_roundtrip_frac, ctx, np, miller, t, dt)
+
     def build(cell, spec, probes):
         """the real object of a cell description; an exception of the implementation while it is brought there is
         the observation to report"""
@@ -1969,6 +2461,39 @@ def search(ctx, broken):
                    _o_vector_cart, ctx, np, miller, box, label, t, spec)
         ctx.stats.case('oracle:params', (label, ci))
         _guard(ctx, 'params', {'op': 'params', 'spec': spec, 'cell': label}, _o_params, ctx, np, box, label, spec)
+        for _ in range(ctx.n(12, 80)):          # larger plane indices (lcm up to ~6e4)
+            t = tuple(rng.randint(-40, 40) for _ in range(3))
+            if any(t):
+                ctx.stats.case('oracle:normal', (label, ci, t))
+                _guard(ctx, 'plane_normal', {'op': 'normal', 'hkl': list(t), 'spec': spec, 'cell': label, 'entry': entry},
+                       _o_normal, ctx, np, box, label, t, rng, None, spec, entry)
+        for _ in range(ctx.n(6, 40)):           # arrays of planes with ONE row that is no (integer) plane
+            shape = rng.choice([(2,), (3,), (4,), (2, 2), (1, 3), (3, 1), (2, 1, 2)])
+            cnt = 1
+            for d in shape:
+                cnt *= d
+            rows = [list(x) for x in rng.sample(nz, cnt)]
+            badrow = rng.randrange(cnt)
+            kind = rng.choice(['zero', 'half', 'half-cancel-row', 'half-cancel-rows', 'third'])
+            if kind == 'zero':
+                rows[badrow] = [0, 0, 0]
+            elif kind == 'half':
+                rows[badrow][rng.randrange(3)] += 0.5
+            elif kind == 'half-cancel-row':
+                i, j = rng.sample(range(3), 2)
+                rows[badrow][i] += 0.5
+                rows[badrow][j] -= 0.5
+            elif kind == 'half-cancel-rows' and cnt > 1:
+                other = (badrow + 1 + rng.randrange(cnt - 1)) % cnt
+                i = rng.randrange(3)
+                rows[badrow][i] += 0.5
+                rows[other][i] -= 0.5
+            else:
+                rows[badrow][rng.randrange(3)] += rng.choice([1, 2]) / 3
+            ctx.stats.case('oracle:normal-guard-array', (label, ci, str(rows)), nontrivial=False)
+            _guard(ctx, 'plane_normal:guard-array', {'op': 'normal_guard_array', 'rows': rows, 'badrow': badrow, 'kind': kind,
+                                                     'shape': list(shape), 'spec': spec, 'cell': label},
+                   _o_normal_guard_array, ctx, np, box, label, rows, badrow, kind, shape, spec)
     ctx.extra['oracle_cells'] = [f'{c[0]}:{_hist(c[2])}' for c in cells]
     r, e = _call(cells[0][1].plane_crystal_to_cartesian, [0, 0, 0])
     if e != 'err:value':
@@ -2063,6 +2588,13 @@ def search(ctx, broken):
         if any(x):
             ctx.stats.case('oracle:reduce', tuple(x))
             _guard(ctx, 'reduce', {'op': 'reduce', 'idx': list(x)}, _o_reduce, ctx, np, miller, x)
+    for _ in range(ctx.n(300, 3000) * mult):       # huge indices (int64 range): the gcd and the quotients stay exact
+        g = rng.choice([1, 2, 3, 6, 7, 10, 10 ** 6, 2 ** 20, 3 ** 12])
+        hi = (2 ** 62) // g
+        x = [g * rng.randint(-hi, hi) if rng.random() < 0.8 else g * rng.randint(-9, 9) for _ in range(rng.choice([3, 4]))]
+        if any(x):
+            ctx.stats.case('oracle:reduce', tuple(x))
+            _guard(ctx, 'reduce', {'op': 'reduce', 'idx': list(x)}, _o_reduce, ctx, np, miller, x)
     for _ in range(ctx.n(60, 600) * mult):
         shape = rng.choice([(2, 2), (2, 3), (3, 2), (4,), (1, 5), (2, 2, 2), (3, 3)])
         cnt = 1
@@ -2078,8 +2610,8 @@ def search(ctx, broken):
         ctx.stats.case('oracle:reduce-shape', (shape, tuple(map(tuple, rows))))
         _guard(ctx, 'reduce:leading-shape', {'op': 'reduce_shape', 'rows': rows, 'shape': list(shape)},
                _o_reduce_shape, ctx, np, miller, rows, shape)
-    for m in range(1, ctx.n(4, 7)):
-        ctx.stats.case('oracle:all_indices', m)
+    for m in range(0, ctx.n(4, 7)):
+        ctx.stats.case('oracle:all_indices', m, nontrivial=m > 0)
         _guard(ctx, 'all_indices', {'op': 'all_indices', 'maxindex': m}, _o_all_indices, ctx, np, miller, m)
     # 6. strings
     #    own generator (sign, several digits, prefix, bracket kind, 3|4 indices, blanks) and own reader of the text
@@ -2094,6 +2626,13 @@ def search(ctx, broken):
         ctx.stats.case('oracle:string', s)
         _guard(ctx, 'fromstring', {'op': 'string', 'string': s}, _o_string, ctx, np, miller, s)
     ctx.extra['string_classes'] = seen_classes
+    # 6b. no function of the property modifies an argument; every result is a fresh array
+    pure_seen = {}
+    for case in _pure_cases(rng, ctx, cells, broken):
+        pure_seen[case['fn']] = pure_seen.get(case['fn'], 0) + 1
+        ctx.stats.case('oracle:pure', str(case))
+        _guard(ctx, case['fn'] + ':pure', {'op': 'pure', 'case': case}, _o_pure, ctx, np, am, miller, case)
+    ctx.extra['pure_cases'] = pure_seen
     # 7. families: as the constructors give them ...
     for _ in range(ctx.n(25, 400) * mult):
         for fam, args, box in _family_cells(rng):
@@ -2152,6 +2691,13 @@ def _replay(ctx, payload):
         _o_family_boundary(ctx, np, r['case'])
     elif op == 'params':
         _o_params(ctx, np, _build(_spec_of(r), None), r.get('cell', '?'), r.get('spec'))
+    elif op == 'pure':
+        _o_pure(ctx, np, am, miller, r['case'])
+    elif op == 'roundtrip_frac':
+        _o_roundtrip_frac(ctx, np, miller, r['idx'], r.get('dtype', 'list'))
+    elif op == 'normal_guard_array':
+        _o_normal_guard_array(ctx, np, _build(_spec_of(r), None), r.get('cell', '?'), r['rows'], r['badrow'], r['kind'],
+                              tuple(r['shape']), r.get('spec'))
     elif op == 'guard_array':
         _o_guard_array(ctx, np, miller, r['rows'], r['offs'], r.get('shape'))
     elif op == 'shape':
